@@ -103,6 +103,42 @@ func genTyped(t *Tape) *Config {
 			}
 		}
 	}
+	// One program in six declares a name twice in one namespace: a permission with
+	// the name of a relation that some permission of that namespace traverses or
+	// includes (declared after the relation). The engine resolves a name to its
+	// first declaration; the type checker has to look at the same one.
+	if t.Bool(1, 6) {
+		var cands [][2]int
+		for i, n := range cfg.NS {
+			used := map[string]bool{}
+			for _, r := range n.Rels {
+				var walk func(e *Expr)
+				walk = func(e *Expr) {
+					if e == nil {
+						return
+					}
+					if e.Kind == ExTraverse || e.Kind == ExIncludes {
+						used[e.Rel] = true
+					}
+					for _, c := range e.Children {
+						walk(c)
+					}
+				}
+				walk(r.Rewrite)
+			}
+			for j, r := range n.Rels {
+				if r.Rewrite == nil && used[r.Name] {
+					cands = append(cands, [2]int{i, j})
+				}
+			}
+		}
+		if len(cands) > 0 {
+			c := cands[t.Choose(len(cands))]
+			n := cfg.NS[c[0]]
+			r := n.Rels[c[1]]
+			n.Rels = append(n.Rels, &RelDef{Name: r.Name, Rewrite: &Expr{Kind: ExIncludes, Rel: r.Name}})
+		}
+	}
 	// A union-typed parent relation whose member namespaces define the inherited
 	// permission through relations the other one lacks (File.view = owners,
 	// Folder.view = readers, Doc.view = parents.traverse(view)): resolving the
